@@ -25,6 +25,7 @@ CONSTANTS R,         \* elements moved per key-adding call (8; 4 under cfg(test)
           GW, MaxUsize, ElemSize,
           FixD1,     \* shrink_to drops an empty-but-present old table   (TRUE = repaired code)
           FixD4,     \* checked additions in reserve/try_reserve/try_grow (TRUE = repaired code)
+          FixD6,     \* clone_from resets an empty destination table first  (TRUE = repaired code)
           Debug      \* debug_assertions + overflow checks on
 
 VARIABLES mB, mI, mG, oP, oB, oI, cI, err
@@ -202,6 +203,15 @@ CloneSelf_Post(ru) ==
     IF CursorBad THEN Fail("cursor_disagrees")
     ELSE MkNoOld(IF oP THEN HB!InsGrowNR(HB!Clone(Main), cI, ru) ELSE HB!Clone(Main))
 CloneSelf(ru) == CloneSelf_En(ru) /\ Apply(CloneSelf_Post(ru))
+
+\* clone_from(source = this map) into a destination whose main table is D: the destination's
+\* old table is dropped, its main table goes through hashbrown's clone_from_with_hasher, then
+\* the source's old-table elements are inserted with growing inserts (ru on tombstones)
+CloneFromUnderflows(D) ==
+    HB!CloneFromUnderflows(IF FixD6 /\ D.i = 0 THEN HB!ClearNoDrop(D) ELSE D, Main)
+CloneFromMain(D, ru) ==
+    HB!InsGrowNR(HB!CloneFromWithHasher(IF FixD6 /\ D.i = 0 THEN HB!ClearNoDrop(D) ELSE D, Main),
+                 IF oP THEN cI ELSE 0, ru)
 
 (***************************************************************************)
 (* Invariants                                                              *)
